@@ -387,7 +387,8 @@ MANIFEST_META = {
                   "numbers on either side, integer powers of either sign, coefficient access with any spelling, nested registered "
                   "calls) are rendered to Python source and evaluated three ways - plain, alg.register, alg.register(symbolic=True) - "
                   "on arguments with arbitrary key order; results must be the same element. A second grammar of 'other uses' checks "
-                  "'may raise, never differs'. All single-operator programs are enumerated every run.",
+                  "'may raise, never differs'. All single-operator programs are enumerated every run."
+                  " Duality with an explicit kind (keyword and positional) and float constants with nine significant digits are part of the grammar.",
     "level_note": "Oracle is kingdon's own plain evaluation (decided by C02-C08). symbolic=True only for small programs (cost). d<=3 "
                   "quick, d<=4 thorough.",
 }
